@@ -1,3 +1,6 @@
+// replay for property C14, harness c14_truncated_ext_if_down (/verif/harness/sciparse/c14_scmp.rs)
+// failed checks reported by CBMC:
+//   "SCMP checksum does not verify over the SCION pseudo-header" @ ../harness/sciparse/c14_scmp.rs:203:5 in function proto::payload::scmp::model::verif_c14::encode_truncated
 //! verif-attach: file=crates/libs/sciparse/src/proto/payload/scmp/model.rs crate=sciparse mod=verif_c14
 //!
 //! C14 — SCMP: every error message fits 1232 bytes for every header size and every offending
@@ -205,35 +208,35 @@ fn encode_truncated(kind: u8) {
 }
 
 
-// verif: prop=C14 tier=quick cap=1500 rot=trunc bound="destination unreachable encoded for a 1020-byte header, quoting a 220-byte offending packet (one symbolic byte at the first, last-quoted, first-dropped or last position): truncated to the 1232-byte budget, quoted prefix, checksum" fns="ScmpDestinationUnreachable::encode_unchecked with truncation" stubs="none"
+// verif: prop=C14 tier=thorough cap=3000 mem=24 bound="destination unreachable encoded for a 1020-byte header, quoting a 220-byte offending packet (one symbolic byte at the first, last-quoted, first-dropped or last position): truncated to the 1232-byte budget, quoted prefix, checksum" fns="ScmpDestinationUnreachable::encode_unchecked with truncation" stubs="none"
 #[kani::proof]
 #[kani::unwind(130)]
 fn c14_truncated_dest_unreachable() {
     encode_truncated(0)
 }
 
-// verif: prop=C14 tier=quick cap=1500 rot=trunc bound="packet too big encoded for a 1020-byte header, quoting a 220-byte offending packet" fns="ScmpPacketTooBig::encode_unchecked with truncation" stubs="none"
+// verif: prop=C14 tier=thorough cap=3000 mem=24 bound="packet too big encoded for a 1020-byte header, quoting a 220-byte offending packet" fns="ScmpPacketTooBig::encode_unchecked with truncation" stubs="none"
 #[kani::proof]
 #[kani::unwind(130)]
 fn c14_truncated_too_big() {
     encode_truncated(1)
 }
 
-// verif: prop=C14 tier=quick cap=1500 rot=trunc bound="parameter problem encoded for a 1020-byte header, quoting a 220-byte offending packet" fns="ScmpParameterProblem::encode_unchecked with truncation" stubs="none"
+// verif: prop=C14 tier=thorough cap=3000 mem=24 bound="parameter problem encoded for a 1020-byte header, quoting a 220-byte offending packet" fns="ScmpParameterProblem::encode_unchecked with truncation" stubs="none"
 #[kani::proof]
 #[kani::unwind(130)]
 fn c14_truncated_param_problem() {
     encode_truncated(2)
 }
 
-// verif: prop=C14 tier=quick cap=1500 bound="external interface down encoded for a 1020-byte header, quoting a 220-byte offending packet" fns="ScmpExternalInterfaceDown::encode_unchecked with truncation" stubs="none"
+// verif: prop=C14 tier=thorough cap=3000 mem=24 bound="external interface down encoded for a 1020-byte header, quoting a 220-byte offending packet" fns="ScmpExternalInterfaceDown::encode_unchecked with truncation" stubs="none"
 #[kani::proof]
 #[kani::unwind(130)]
 fn c14_truncated_ext_if_down() {
     encode_truncated(3)
 }
 
-// verif: prop=C14 tier=quick cap=1500 bound="internal connectivity down encoded for a 1020-byte header, quoting a 220-byte offending packet" fns="ScmpInternalConnectivityDown::encode_unchecked with truncation" stubs="none"
+// verif: prop=C14 tier=thorough cap=3000 mem=24 bound="internal connectivity down encoded for a 1020-byte header, quoting a 220-byte offending packet" fns="ScmpInternalConnectivityDown::encode_unchecked with truncation" stubs="none"
 #[kani::proof]
 #[kani::unwind(130)]
 fn c14_truncated_int_conn_down() {
@@ -299,3 +302,52 @@ fn c14_echo_request_codec() {
 fn c14_echo_reply_codec() {
     echo(true)
 }
+
+#[cfg(test)]
+mod verif_playback {
+    use super::*;
+/// Test generated for harness `proto::payload::scmp::model::verif_c14::c14_truncated_ext_if_down` 
+///
+/// Check for `assertion`: ""SCMP checksum does not verify over the SCION pseudo-header""
+
+#[test]
+fn kani_concrete_playback_c14_truncated_ext_if_down_17632172075581984297() {
+    let concrete_vals: Vec<Vec<u8>> = vec![
+        // 179
+        vec![179],
+        // 255
+        vec![255],
+        // 65535
+        vec![255, 255],
+        // 127ul
+        vec![127, 0, 0, 0, 0, 0, 0, 0],
+    ];
+    let mut concrete_vals = concrete_vals;
+    concrete_vals.extend(std::iter::repeat(vec![0u8]).take(8192));
+    kani::concrete_playback_run(concrete_vals, c14_truncated_ext_if_down);
+}
+
+/// Test generated for harness `proto::payload::scmp::model::verif_c14::c14_truncated_ext_if_down` 
+///
+/// Check for `cover`: "symbolic byte in the dropped tail"
+
+#[test]
+fn kani_concrete_playback_c14_truncated_ext_if_down_17070105781458792881() {
+    let concrete_vals: Vec<Vec<u8>> = vec![
+        // 179
+        vec![179],
+        // 255
+        vec![255],
+        // 65535
+        vec![255, 255],
+    ];
+    let mut concrete_vals = concrete_vals;
+    concrete_vals.extend(std::iter::repeat(vec![0u8]).take(8192));
+    kani::concrete_playback_run(concrete_vals, c14_truncated_ext_if_down);
+}
+}
+
+// native replay (full trace; cargo kani playback, dev profile, real code):
+//   kani_concrete_playback_c14_truncated_ext_if_down_17632172075581984297: reproduced (SCMP checksum does not verify over the SCION pseudo-header)
+//   kani_concrete_playback_c14_truncated_ext_if_down_17070105781458792881: did not reproduce (cover:symbolic byte in the dropped tail)
+// re-run: bin/check C14 --replay /verif/replays/C14/c14_truncated_ext_if_down.rs
